@@ -2933,6 +2933,14 @@ impl LpgStore {
     pub fn set_epoch(&self, epoch: EpochId) {
         self.current_epoch.store(epoch.as_u64(), Ordering::SeqCst);
     }
+
+    /// Advances the current epoch to at least `epoch` (it never moves backwards).
+    ///
+    /// Called when a transaction commits so that the store-epoch read paths
+    /// (`get_node`, `node_ids`, `all_nodes`, ...) see everything committed so far.
+    pub fn sync_epoch(&self, epoch: EpochId) {
+        self.current_epoch.fetch_max(epoch.as_u64(), Ordering::SeqCst);
+    }
 }
 
 impl Default for LpgStore {
